@@ -722,7 +722,12 @@ def fuzz_shard(target, seconds, seed, max_len=400):
     import subprocess
     import tempfile
     acc = Acc()
-    work = tempfile.mkdtemp(prefix="fuzz-%s-" % target, dir=os.path.join(OUT_DIR if OUT_DIR != VERIF_DIR else VERIF_DIR, ".work") if os.path.isdir(os.path.join(VERIF_DIR, ".work")) else None)
+    base = os.path.join(OUT_DIR, ".work")
+    try:
+        os.makedirs(base, exist_ok=True)
+    except OSError:
+        base = None
+    work = tempfile.mkdtemp(prefix="fuzz-%s-" % target, dir=base)
     env = dict(os.environ, PYTHONPATH=os.pathsep.join([os.path.join(VERIF_DIR, ".deps"), VERIF_DIR]), PYTHONHASHSEED="0", PYTHONDONTWRITEBYTECODE="1")
     try:
         try:
